@@ -64,6 +64,87 @@ def targeted(sch, r):
     return out
 
 
+def conform_part(ctx):
+    """Validator.Entity / Entities / Request verdicts = Impl/Conform.v"""
+    r = ctx.rng
+    quick = ctx.tier == 'quick'
+    g = gen.Gen(r)
+    raw = []
+    for si in range(60 if quick else 1500):
+        sch = schemagen.Schema(r)
+        text = sch.text()
+        evs = ['enumvals'] + [[S(n)] + [S(i) for i in ids] for n, ids in sorted(sch.enums.items())]
+        acts = sorted(sch.actions)
+        for _ in range(8 if quick else 16):
+            st = sch.store()
+            extra = []
+            # action entities: absent, with the closure of their declared groups as parents (conforming), or with other parents / data
+            for a in acts + (['grp'] if sch.group else []) + ['nosuch']:
+                k = r.random()
+                if k < 0.5:
+                    continue
+                member = a in sch.actions and sch.actions[a]['member']
+                parents = [gen.vent('Action', 'grp')] if member else []
+                if k > 0.85:
+                    parents = r.choice([parents + [gen.vent('Action', r.choice(acts))], [], [gen.vent('Action', 'grp')], [gen.vent('Action', 'nosuch')], parents + parents,
+                                        [gen.vent(r.choice(sorted(sch.entities)), 'a')]])
+                attrs = [[S('a'), gen.vlong(1)]] if k > 0.97 else []
+                tags = [[S('k'), gen.vstr('v')]] if 0.94 < k <= 0.97 else []
+                extra.append(['ent', gen.vent('Action', a), ['parents'] + parents, ['attrs'] + attrs, ['tags'] + tags])
+            if r.random() < 0.15:
+                extra.append(['ent', gen.vent(r.choice(['Nope', 'NS::Action', 'Actions', 'action']), 'a'), ['parents'], ['attrs'], ['tags']])
+            # more kinds of non-conforming values than store() produces: a random value in place of a random attribute / tag / parent
+            st = list(st)
+            for _ in range(r.choice([0, 0, 0, 1, 2])):
+                if len(st) > 1:
+                    i_ = r.randrange(1, len(st))
+                    e = [list(x) if isinstance(x, list) else x for x in st[i_]]
+                    which = r.choice([3, 3, 4, 2])
+                    if which == 2:
+                        e[2] = e[2] + [gen.vent(r.choice(sorted(sch.entities) + sorted(sch.enums) + ['Action']), 'a')]
+                    elif len(e[which]) > 1:
+                        j_ = r.randrange(1, len(e[which]))
+                        e[which][j_] = [e[which][j_][0], g.value(2)]
+                    else:
+                        e[which] = e[which] + [[S(r.choice(['a', 'k', 'zz'])), g.value(1)]]
+                    st[i_] = e
+            rq = sch.request()
+            if r.random() < 0.15:
+                rq = ['req', r.choice([rq[1], gen.vent('Action', 'view'), gen.vent(sorted(sch.enums)[0], 'a') if sch.enums else rq[1], gen.vent('Nope', 'a')]),
+                      r.choice([rq[2], gen.vent('Action', 'grp'), gen.vent('NS::Action', 'view'), gen.vent('User', 'view')]), rq[3], r.choice([rq[4], gen.vrec([]), g.value(2) if False else rq[4]])]
+            raw.append((text, evs, st + extra, rq))
+    texts = sorted({t[0] for t in raw})
+    info = lib.run_go(['(case i%d schemainfo %s)' % (i, S(t)) for i, t in enumerate(texts)], 'schemainfo', ctx.workdir)
+    info_of = {t: info.get('i%d' % i, '(missing)') for i, t in enumerate(texts)}
+    cases = []
+    for i, (text, evs, st, rq) in enumerate(raw):
+        inf = info_of[text]
+        if inf.startswith('(info '):
+            cases.append('(case cf%d conform %s %s %s %s %s)' % (i, S(text), inf, sx.dump(evs), sx.dump(st), sx.dump(rq)))
+    go_c = lib.run_go(cases, 'conform', ctx.workdir, timeout_ms=30000)
+    mo_c = lib.run_model(cases, 'conform', ctx.workdir)
+    mism = 0
+    ne = nok = nreq = nall = 0
+    for c in cases:
+        cid = lib.case_id(c)
+        g_, m_ = lib.canon_str(go_c.get(cid, '(missing)')), lib.canon_str(mo_c.get(cid, '(missing)'))
+        if g_.startswith('(conform '):
+            t = sx.parse(g_)
+            ne += len(t[1]) - 1
+            nok += sum(1 for x in t[1][1:] if x[1] == '1')
+            nall += t[2][1] == '1'
+            nreq += t[3][1] == '1'
+        if g_ != m_:
+            mism += 1
+            if mism <= 6:
+                ctx.violation('conformance checkers (Validator.Entity / Entities / Request): Go and the Coq model (Impl/Conform.v) disagree: go=%s model=%s' % (g_[:500], m_[:500]),
+                              dict(kind='case', case=c, go=g_, model=m_))
+    ctx.extra['conform_correspondence'] = dict(cases=len(cases), entities=ne, conforming_entities=nok, conforming_stores=nall, conforming_requests=nreq)
+    ctx.oblige('correspondence: Validator.Entity (per entity), Validator.Entities, Validator.Request = Impl/Conform.check_entity / check_entities / check_request on %d '
+               '(schema, store, request) triples: %d entities (%d conforming), %d conforming stores, %d conforming requests; strict and permissive validators agree'
+               % (len(cases), ne, nok, nall, nreq), 'correspondence', mism == 0)
+
+
 def run(ctx):
     b = lib.standard_build(ctx)
     if not lib.require_builds(ctx, b):
@@ -332,4 +413,5 @@ action noapply in [grp];
                % (accepted, conforming), 'oracle', bad == 0)
     for c in cases[:2]:
         ctx.sample(dict(case=c[:500], go=(go.get(lib.case_id(c)) or '')[:200]))
+    conform_part(ctx)
     lib.epilogue(ctx)
